@@ -1,12 +1,67 @@
 /-
 Props/C04.lean — property theorems for C04 (Compare equals the native comparison).
+
+`cmp_correct`: for the repaired emitter model, every well-formed tree whose inspector compiles (`EmitOK`),
+every well-typed value, every path, operator and operand, what Compare does to `*result` is accepted by
+the independent specification `cmpAccepts` — the native comparison of the element native navigation
+reaches. The model of the current tree differs on the classes `nil-intercept`, `negative-index`,
+`elem-nil-cmp`, `nil-root-panics` (`repo_not_correct`).
 -/
-import InspectorModel.Gen.Cmp
-import InspectorModel.Spec.CmpSpec
+import InspectorModel.Proofs.C04
 namespace Inspector.C04
 
 /-- Empty path: Compare returns at once and leaves the result untouched (compiler.go:367). -/
 theorem empty_path (cfg : GenCfg) (n : Node) (f : Form) (v : Val) (op : Op) (r : Seg) :
     cmpM cfg n f v [] op r = .untouched := rfl
+
+/-- C04 for the repaired emitter. -/
+theorem cmp_correct (n : Node) (v : Val) (p : List Seg) (op : Op) (right : Seg) (f : Form)
+    (hf : rootOf f = .ok) (hroot : RootOK n = true) (hwf : NodeWF n = true) (hok : EmitOK n = true)
+    (hwt : WT n v = true) :
+    cmpAccepts n v p op right (cmpM GenCfg.fixed n f v p op right) = true := by
+  have hr : rootOfC GenCfg.fixed f = .ok := by
+    unfold rootOfC
+    rw [hf]
+  unfold cmpAccepts cmpM nav
+  cases p with
+  | nil =>
+    simp only [navV, cmpAcceptsNav]
+    rw [Bool.or_eq_true]; left
+    apply untouched_ok
+    right
+    simpa [RootOK] using hroot
+  | cons s rest =>
+    simp only [hr]
+    exact cmpN_correct op right (s :: rest) n v false hwf hwt hok (fun h => by cases h)
+
+/-- The six operators on an ordered scalar are computed as the native comparison (the leaf step). -/
+theorem six_way_native (op : Op) (l r : Val) (b lt gt : Bool) (h : nativeCmp op l r = some b)
+    (hlt : valLt l r = some lt) (hgt : valLt r l = some gt) : cmpSix op l r = .set b :=
+  cmpSix_native op l r b lt gt h hlt hgt
+
+/-- A typed-nil root is refused by the repaired emitter: result untouched, no panic. -/
+theorem cmp_nil_root (n : Node) (v : Val) (p : List Seg) (op : Op) (right : Seg) (f : Form) (hf : rootOf f ≠ .ok) :
+    cmpM GenCfg.fixed n f v p op right = .untouched := by
+  cases p with
+  | nil => rfl
+  | cons s rest => cases f <;> simp [rootOf] at hf <;> rfl
+
+section NonVacuity
+/-- `struct { A int; P *struct{ B string } }` with `A = 5`, `P = &{B: "nil"}`. -/
+def exNode : Node :=
+  .struct { typn := "T" } [
+    .basic { typn := "int", typu := "int", name := "A" },
+    .struct { typn := "Inner", name := "P", ptr := true } [.basic { typn := "string", typu := "string", name := "B" }]]
+def exVal : Val := .struct [.int 5, .ptr (.struct [.str (strBytes "nil")])]
+def seg (t : String) (pi : Option Int := none) : Seg := { text := strBytes t, pi := pi }
+
+example : RootOK exNode = true ∧ NodeWF exNode = true ∧ EmitOK exNode = true ∧ WT exNode exVal = true := by decide
+example : cmpM GenCfg.fixed exNode .ptr exVal [seg "A"] 3 (seg "4" (some 4)) = .set true := by decide
+/-- Known finding `nil-intercept`: with the operand `nil`, the emitted code of the current tree answers
+for the pointer field `P` itself although the path continues to `P.B`. -/
+theorem repo_not_correct :
+    cmpAccepts exNode exVal [seg "P", seg "B"] 1 (seg "nil") (cmpM GenCfg.repo exNode .ptr exVal [seg "P", seg "B"] 1 (seg "nil")) = false := by
+  decide
+end NonVacuity
 
 end Inspector.C04
